@@ -680,8 +680,9 @@ func init() {
 	sim.Register(&sim.Prop{
 		ID:    "C20",
 		Level: "exploration",
-		Rule: "each run: 1-3 shared read-only input byte slices (fresh copies of corpus files) and 2-6 caller tasks, each with a seeded script of 3-12 steps over its OWN objects (decode by reader or slice path, Info at 3 levels, Encode box-tree/segment, EncodeSW, GetFullSamples, UpdateSidx+Encode, InitProtect+EncryptFragment, DecryptInit+DecryptSegment, Annex B conversions, SPS/PPS/SEI parsing). " +
-			"Mode A (85%): built with -race, tasks are real goroutines serialised by a race-invisible baton in an order drawn from the tape at every step boundary; mode B (15%): the same scripts free-running behind a barrier at GOMAXPROCS 1/4/16. Oracles: no race report with an mp4ff frame, each task's per-step results equal the same script run alone, SHA of every shared input unchanged, registry/table fingerprint unchanged. " +
+		Rule: "each run: 1-3 shared read-only input byte slices (fresh copies of corpus files) and 2-6 caller tasks, each with a seeded script of 3-12 steps over its OWN objects (decode by reader or slice path, Info at 3 levels, Encode box-tree/segment, EncodeSW, GetFullSamples, UpdateSidx+Encode, InitProtect+EncryptFragment, DecryptInit+DecryptSegment, Annex B conversions, SPS/PPS/SEI parsing, lazy decode + ReadData/CopyData of seeded ranges through the task's own device handle, decode of streams that end inside a header / 64-bit size field / box body). " +
+			"Every Read/Seek/Write a task makes on its own device handle is a scheduling point INSIDE the library call (budget 4-27 per task). " +
+			"Mode A (85%): built with -race, tasks are real goroutines serialised by a race-invisible baton in an order drawn from the tape at every step boundary and I/O point; mode B (15%): the same scripts free-running behind a barrier at GOMAXPROCS 1/4/16. Oracles: no race report with an mp4ff frame, each task's per-step results equal the same script run alone, SHA of every shared input unchanged, registry/table fingerprint unchanged. " +
 			"non-trivial = at least two task switches in the drawn schedule; distinct = hash of the schedule (task id per step) and scripts.",
 		Assumptions: []string{"the box-decoder registry is not modified (excluded by the statement)", "in-place conversions (ConvertByteStreamToNaluSample etc.) are given private copies: they are documented as in place",
 			"slice-path decoding aliases the caller's buffer; scripts that then encrypt/decrypt in place are generated in a minority of runs and their effect on the shared input is the recorded finding", "race detector (ThreadSanitizer) with suppress_equal_stacks=0; it is a sound but not complete sensor: runtime-internal synchronisation (sync.Pool in fmt, atomics) can order two tasks and hide a race, so in a seeded third of the runs all pools are emptied (two GCs) before every step, the detector runs with history_size=7 (with the default history the previous access of a long-running task cannot be restored and the report is silently dropped), and replay/minimisation re-execute a tape up to 6 times"},
